@@ -25,6 +25,7 @@ func main() {
 	workers := fs.Int("j", 12, "parallel queries")
 	verbose := fs.Bool("v", false, "verbose")
 	keep := fs.String("keep", "", "keep query files in this dir")
+	show := fs.String("show", "", "print the goal of obligations whose name contains this")
 	prop := fs.String("prop", "", "property id")
 	tier := fs.String("tier", "quick", "quick|thorough")
 	out := fs.String("outdir", "/verif", "where evidence/ and replay/ are written")
@@ -72,6 +73,17 @@ func main() {
 			}
 			dischargeAll(res.Obls, dir, *timeout, *workers)
 			printResult(res, *verbose)
+			if *show != "" {
+				for _, o := range res.Obls {
+					if strings.Contains(o.Name, *show) {
+						lines := strings.Split(strings.TrimSpace(o.Query), "\n")
+						fmt.Println("--- goal of", o.Name)
+						for _, l := range lines[len(lines)-2:] {
+							fmt.Println(l)
+						}
+					}
+				}
+			}
 			for _, o := range res.Obls {
 				if !o.ok() {
 					code = 1
